@@ -63,10 +63,14 @@ class FastHierarchyAnalyzer(HierarchyAnalyzerBase):
                     for i_dep in i_choices[1:]:
                         is_forced[i_dep] = True
 
+        # Choices that have no options left (the branch they are in is infeasible) have nothing to choose from
+        is_forced[np.array(self.n_opts, dtype=int) == 0] = True
+
         return is_forced
 
     def _get_n_combinations(self) -> int:
-        n_opts = list(self.n_opts)
+        # A (conditionally active) choice without options only makes the branch it is in infeasible, not the whole graph
+        n_opts = [max(n_opt, 1) for n_opt in self.n_opts]
 
         # Apply choice constraints
         permanent_nodes = self.influence_matrix.permanent_nodes_incl_choice_nodes
@@ -127,7 +131,8 @@ class FastHierarchyAnalyzer(HierarchyAnalyzerBase):
                     continue
 
                 # Make choice
-                option_node = sel_choice_opt_nodes[choice_node][i_opt]
+                option_nodes = sel_choice_opt_nodes[choice_node]
+                option_node = option_nodes[i_opt] if len(option_nodes) > 0 else None  # No options: becomes infeasible
                 graph_cache[cache_key] = graph = graph.get_for_apply_selection_choice(choice_node, option_node)
 
             # Verify that indeed no selection_choices are left
